@@ -115,6 +115,11 @@ def Store.set (s : Store) (f : StoreField) (ids : List Nat) : Store :=
   | .dsgFail => { s with dsgFail := ids }
   | .dropFail => { s with dropFail := ids }
 
+/-- the retention duration that puts `now − Duration` at the cutoff (`0` = no retention) -/
+def cutoffDur : Option Int → Int
+  | some a => modelNow - a
+  | none => 0
+
 def step (s : State) : Op → State × Obs
   | .rp db rp sgd raw =>
     match opRP s.data db rp sgd raw with
@@ -129,10 +134,7 @@ def step (s : State) : Op → State × Obs
     | .ok (d, g) => ({ s with data := d }, .group g)
     | .error e => (s, .err e)
   | .ms db rp cutoff ts =>
-    let D : Int := match cutoff with
-      | some a => modelNow - a
-      | none => 0
-    let d0 := setDuration s.data db rp D
+    let d0 := setDuration s.data db rp (cutoffDur cutoff)
     match mapShards d0 db rp modelNow ts with
     | (d, .ok m) => ({ s with data := d }, .mapping m)
     | (d, .error e) => ({ s with data := d }, .err e)
